@@ -1349,7 +1349,13 @@ func funRoundBank(v *decimal.Big) (*decimal.Big, error) {
 }
 
 func funRoundCash(v, places *decimal.Big) (*decimal.Big, error) {
-	mv := newDecimalBig().Rem(v, decimal.New(1, 0))
+	mv := newDecimalBig()
+	if v.IsFinite() && v.Scale()-v.Precision() > 64 {
+		// |v| < 1 is its own remainder (lining 1e-999999999 up with 1 digit by digit never finishes)
+		mv.Copy(v)
+	} else {
+		mv.Rem(v, decimal.New(1, 0))
+	}
 	if mv.Cmp(decimal.New(5, -2)) <= 0 {
 		return funCeil(v)
 	} else {
